@@ -105,7 +105,8 @@ Finish == /\ phase = "items" /\ Len(items) >= 1
                                       /\ \A j \in DOMAIN items, m \in 1..2 : m <= Len(items[j].refs) => items[j].refs[m].r \in 1..Len(rels))
                /\ (kind = "insert_cols" => ~HasStar)
                \* the provider may know the target table (written schema-qualified then): as many columns as the statement has items
-               /\ (t => kind \in {"insert", "insert_cols"} /\ ~HasStar)
+               \* (a CREATE TABLE AS whose target the provider happens to know defines the table anew: its columns are the select's)
+               /\ (t => kind \in {"insert", "insert_cols", "ctas"} /\ ~HasStar)
                /\ collist' = cl /\ known' = kn /\ tk' = t
           /\ phase' = "done" /\ UNCHANGED <<kind, rels, items, branch2>>
 Next == Start \/ AddTbl \/ AddSub \/ ToItems \/ AddItem \/ AddBranch \/ Finish
@@ -150,7 +151,7 @@ StarOf(i) == LET r == rels[i] IN
 \* target column: the explicit column list always wins; else the known columns of the target of an INSERT name the positions;
 \* else the select alias; else the column's own name
 TgtMeta == <<"t1", "t2", "t3">>
-TgtName(j) == IF collist # <<>> THEN collist[j] ELSE IF tk THEN TgtMeta[j] ELSE ItemName(items[j])
+TgtName(j) == IF collist # <<>> THEN collist[j] ELSE IF tk /\ kind # "ctas" THEN TgtMeta[j] ELSE ItemName(items[j])
 FlowItem(j) == LET it == items[j] IN
    IF Len(it.refs) = 1 /\ it.refs[1].c = Star
    THEN UNION {StarOf(i) : i \in (IF it.refs[1].r > 0 THEN {it.refs[1].r} ELSE DOMAIN rels)}
